@@ -3,6 +3,7 @@ package ast
 import (
 	"bytes"
 	"fmt"
+	"sort"
 	"strings"
 
 	"github.com/risor-io/risor/internal/tmpl"
@@ -267,11 +268,23 @@ func (m *Map) Literal() string { return m.token.Literal }
 
 func (m *Map) Items() map[Expression]Expression { return m.items }
 
+// SortedKeys returns the keys of the map literal in source order.
+func (m *Map) SortedKeys() []Expression {
+	keys := make([]Expression, 0, len(m.items))
+	for key := range m.items {
+		keys = append(keys, key)
+	}
+	sort.SliceStable(keys, func(i, j int) bool {
+		return keys[i].Token().StartPosition.Char < keys[j].Token().StartPosition.Char
+	})
+	return keys
+}
+
 func (m *Map) String() string {
 	var out bytes.Buffer
 	pairs := make([]string, 0)
-	for key, value := range m.items {
-		pairs = append(pairs, key.String()+":"+value.String())
+	for _, key := range m.SortedKeys() {
+		pairs = append(pairs, key.String()+":"+m.items[key].String())
 	}
 	out.WriteString("{")
 	out.WriteString(strings.Join(pairs, ", "))
